@@ -138,13 +138,30 @@ class Node:
                    **self._nondefault(cmd, {'ignore_lattice': False, 'require_lattice': False, 'raw': False}))
         return self._store(cmd, out)
 
+    HEADER = '%container 1: a caller-owned line before the JSON document\n'
+
     def do_tojson(self, cmd):
         ctx = self.slots[cmd['slot']]
         kw = self._nondefault(cmd, {'encoding': 'utf-8', 'indent': None, 'sort_keys': True, 'ignore_lattice': False})
+        enc = cmd.get('encoding', 'utf-8')
         if cmd.get('pathkind') == 'fileobj':
             def go():
-                with open(cmd['path'], 'w', encoding=cmd.get('encoding', 'utf-8')) as f:
+                with open(cmd['path'], 'w', encoding=enc) as f:
                     ctx.tojson(f, **kw)
+            out = call(go)
+        elif cmd.get('pathkind') == 'fileobj_pos':
+            # the caller's file object is positioned behind something the caller wrote itself
+            def go():
+                with open(cmd['path'], 'w', encoding=enc) as f:
+                    f.write(self.HEADER)
+                    ctx.tojson(f, **kw)
+                with open(cmd['path'], encoding=enc) as f:
+                    text = f.read()
+                if not text.startswith(self.HEADER):
+                    raise AssertionError('tojson(file object) did not write at the position of the caller\'s file object: '
+                                         + repr(text[:80]))
+                with open(cmd['path'], 'w', encoding=enc) as f:
+                    f.write(text[len(self.HEADER):])
             out = call(go)
         else:
             out = call(ctx.tojson, self._path(cmd), **kw)
@@ -152,10 +169,27 @@ class Node:
 
     def do_fromjson(self, cmd):
         kw = self._nondefault(cmd, {'encoding': 'utf-8', 'ignore_lattice': False, 'require_lattice': False, 'raw': False})
+        enc = cmd.get('encoding', 'utf-8')
         if cmd.get('pathkind') == 'fileobj':
             def go():
-                with open(cmd['path'], encoding=cmd.get('encoding', 'utf-8')) as f:
+                with open(cmd['path'], encoding=enc) as f:
                     return self.C.Context.fromjson(f, **kw)
+            out = call(go)
+        elif cmd.get('pathkind') == 'fileobj_pos':
+            # ... or behind something the caller has already consumed
+            def go():
+                box = cmd['path'] + '.container'
+                try:
+                    with open(cmd['path'], encoding=enc) as f:
+                        text = f.read()
+                    with open(box, 'w', encoding=enc) as f:
+                        f.write(self.HEADER + text)
+                    with open(box, encoding=enc) as f:
+                        f.readline()
+                        return self.C.Context.fromjson(f, **kw)
+                finally:
+                    if os.path.exists(box):
+                        os.unlink(box)
             out = call(go)
         else:
             out = call(self.C.Context.fromjson, self._path(cmd), **kw)
